@@ -65,8 +65,14 @@ func (c10) Gen(seed uint64, run int, tier string) *Plan {
 			agents++
 		case x < 40:
 			p.Actions = append(p.Actions, Action{Kind: "sleep", B: r.Intn(agents), D: r.Intn(5000)})
-		case x < 48:
+		case x < 42:
 			p.Actions = append(p.Actions, Action{Kind: "checkin", B: r.Intn(agents)})
+		case x < 44:
+			// a clean restart in the middle of the history: what was restored keeps being used
+			p.Actions = append(p.Actions, Action{Kind: "restart"})
+		case x < 48:
+			// the agent reports itself again (COMMAND_CHECKIN) with a new session key and new metadata
+			p.Actions = append(p.Actions, Action{Kind: "rekey", B: r.Intn(agents), D: r.Intn(1 << 30)})
 		case x < 55:
 			p.Actions = append(p.Actions, Action{Kind: "exit", B: r.Intn(agents)})
 		case x < 60:
@@ -163,7 +169,11 @@ type c10Run struct {
 	// kill runs: the in-memory table right before each database statement since the last
 	// quiescent point - the versions a statement of the operation in flight may have persisted
 	inflight []c10State
+	base     uint64 // scheduler steps of the process images that ended in a clean restart
 }
+
+// step is the position in the history: scheduler steps over all process images so far.
+func (c *c10Run) step() uint64 { return c.base + c.w.Sim.Step }
 
 // settle runs the scheduler; returns false when the kill point was reached.
 func (c *c10Run) settle() bool {
@@ -173,7 +183,7 @@ func (c *c10Run) settle() bool {
 		if c.record && c.w.TS != nil {
 			// every quiescent point is a state a crash may legitimately fall back to
 			c.states = append(c.states, c10Snap(c.w))
-			c.stepsAt = append(c.stepsAt, s.Step)
+			c.stepsAt = append(c.stepsAt, c.step())
 		}
 		return true
 	}
@@ -184,7 +194,11 @@ func (c *c10Run) settle() bool {
 			}
 		}
 	}
-	if s.RunToStep(c.kill, true) == simrt.Stopped {
+	if c.kill <= c.base {
+		c.killed = true
+		return false
+	}
+	if s.RunToStep(c.kill-c.base, true) == simrt.Stopped {
 		c.killed = true
 		return false
 	}
@@ -281,6 +295,54 @@ func (c *c10Run) play(record bool) (states []c10State, stepsAt []uint64) {
 				continue
 			}
 			ok = c.checkin(c.demons[a.B%len(c.demons)])
+		case "restart":
+			c.base += w.Sim.Step
+			w.Crash()
+			c.res.Steps += 0
+			if err := w.Boot(); err != nil {
+				c.res.HarnessError = "restart inside history: " + err.Error()
+				return
+			}
+			o = w.NewOperator(p.Cfg.Operators[0].Name, p.Cfg.Operators[0].Password)
+			c.wit = o
+			o.WS = w.DialWS("/havoc/")
+			if o.WS == nil {
+				return
+			}
+			if ok = c.settle(); !ok {
+				break
+			}
+			o.SendJSON(o.AuthMessage())
+			ok = c.settle()
+		case "rekey":
+			if len(c.demons) == 0 {
+				continue
+			}
+			d := c.demons[a.B%len(c.demons)]
+			c.taskN++
+			rid := uint32(0x0a100000 + c.taskN)
+			o.Task(d.NameID(), fmt.Sprintf("%08x", rid), world.CmdCheckin, "checkin", nil)
+			if ok = c.settle(); !ok {
+				break
+			}
+			if ok = c.checkin(d); !ok {
+				break
+			}
+			cr := simrt.NewRand(uint64(a.D))
+			nd := *d
+			nd.Key, nd.IV = randBytes(cr, 32), randBytes(cr, 16)
+			nd.Meta.Hostname = c10Strings[cr.Intn(len(c10Strings))]
+			// the callback travels under the old key; the block inside names the new one
+			d.Out = append(d.Out, world.Pkg{Cmd: world.CmdCheckin, RID: rid, Body: nd.CheckinMetaBody()})
+			pk := d.Out
+			d.Out = nil
+			call := c.w.Send(world.AgentReq{Port: c.w.Cfg.HTTP[0].PortBind, URI: "/", Body: d.Frame(pk)})
+			// from here on the agent speaks under its new key, whatever became of the request
+			d.Key, d.IV, d.Meta = nd.Key, nd.IV, nd.Meta
+			if ok = c.settle(); !ok {
+				break
+			}
+			c.w.Absorb(d, call)
 		case "exit":
 			if len(c.demons) == 0 {
 				continue
@@ -372,7 +434,7 @@ func (c10) Exec(p *Plan, dir string) *Result {
 	}
 	ref := &c10Run{w: w0, res: res, plan: p}
 	states, stepsAt := ref.play(true)
-	total := w0.Sim.Step
+	total := ref.step()
 	bootSteps := uint64(0)
 	if len(stepsAt) > 0 {
 		bootSteps = stepsAt[0]
